@@ -27,11 +27,14 @@ SvcMap(S, alt) == [n \in {"Netspoc-tcp_80", "Netspoc-udp_53"} \cap {IF r.svc = "
 Cfg(S, gm, alt) == [policies |-> [p \in {"Netspoc-v1"} |-> Numbered(S)], groups |-> gm, services |-> SvcMap(S, alt)]
 NoFn == [x \in {} |-> {}]
 
+\* the expression of a group on the manager may carry another id than Netspoc's "id" (created by hand / from raw)
+WithX(c, x) == IF x = "id" THEN c ELSE c @@ [xids |-> [n \in DOMAIN c.groups |-> x]]
 (* N1: one policy, rules sharing sequence numbers, groups renamed / shared / split *)
 N1 ==
   \E A \in SubsetsUpTo(Bodies("g0", "g1"), MaxLen), B \in SubsetsUpTo(Bodies("g0", "g1"), MaxLen),
-     da, db, ta, tb \in GSets :
-    /\ dev = Cfg(A, [n \in {"Netspoc-" \o x : x \in UsedG(A, {"g0", "g1"})} |-> IF n = "Netspoc-g0" THEN da ELSE db], FALSE)
+     da, db, ta, tb \in GSets, xd \in {"id", "members"} :
+    /\ (UsedG(A, {"g0", "g1"}) = {} => xd = "id")
+    /\ dev = WithX(Cfg(A, [n \in {"Netspoc-" \o x : x \in UsedG(A, {"g0", "g1"})} |-> IF n = "Netspoc-g0" THEN da ELSE db], FALSE), xd)
     /\ tgt = Cfg(B, [n \in {"Netspoc-" \o x : x \in UsedG(B, {"g0", "g1"})} |-> IF n = "Netspoc-g0" THEN ta ELSE tb], FALSE)
 
 (* N2: services changed in place, left-over groups / services, policy only on one side *)
